@@ -49,6 +49,16 @@ pub fn parse_header(line: &[u8]) -> Option<(String, String, String)> {
 /// start of a line, or - for logs without a trailing newline - where the literal header prefix
 /// begins in the middle of a line.
 pub fn parse_blocks(out: &[u8]) -> (Vec<u8>, Vec<Block>) {
+    parse_blocks_opt(out, true)
+}
+
+/// Headers are recognised at the start of a line only (the reading of a line-oriented consumer such as the
+/// `log tail` window: a header glued to the end of an unfinished line is not a header).
+pub fn parse_blocks_strict(out: &[u8]) -> (Vec<u8>, Vec<Block>) {
+    parse_blocks_opt(out, false)
+}
+
+fn parse_blocks_opt(out: &[u8], mid_line: bool) -> (Vec<u8>, Vec<Block>) {
     let mut pre = vec![];
     let mut blocks: Vec<Block> = vec![];
     let mut i = 0;
@@ -57,7 +67,7 @@ pub fn parse_blocks(out: &[u8]) -> (Vec<u8>, Vec<Block>) {
         let mut line = &out[i..end];
         // header in the middle of a line?
         let mut mid = None;
-        if let Some(p) = find(line, b"[monorail | ") {
+        if let Some(p) = find(line, b"[monorail | ").filter(|_| mid_line) {
             if p > 0 {
                 let cand = &line[p..];
                 let c2 = if cand.ends_with(b"\n") { &cand[..cand.len() - 1] } else { cand };
